@@ -318,7 +318,7 @@ theorem del_found {m : FMap} {h : Nat} (hs : Sorted (keys m))
         have hnm : k ∉ keys t := fun hm => by have := hs.head_lt k hm; omega
         have := del_of_not_mem hnm
         simp only [del] at this
-        simp [del, List.filter_cons, removeAt, this]
+        simp [del, removeAt, this]
 
 /-! ### has / setv -/
 
